@@ -83,6 +83,10 @@ R_BelowGuard(pp, gg, r) == r = Guard(pp) - 1
 R_TwoBelowGuard(pp, gg, r) == r = Guard(pp) - 2
 R_AtGuard(pp, gg, r) == r = Guard(pp)
 R_AboveGuard(pp, gg, r) == r = Guard(pp) + 1
+\* where a guard that is one bit too weak / too strict would first differ
+R_DoubleGuard(pp, gg, r) == r = 2 * Guard(pp)
+R_DoubleGuardM2(pp, gg, r) == r = 2 * Guard(pp) - 2
+R_HalfGuard(pp, gg, r) == r = (Guard(pp) \div 2) + 1
 R_Pow2m1BelowGuard(pp, gg, r) == (\E k \in 1..32 : pp + 1 = Pow2(k)) /\ r = Guard(pp) - 1
 R_Pow2m1AtGuard(pp, gg, r) == (\E k \in 1..32 : pp + 1 = Pow2(k)) /\ r = Guard(pp)
 R_Pow2BelowGuard(pp, gg, r) == (\E k \in 0..31 : pp = Pow2(k)) /\ r = Guard(pp) - 1
